@@ -15,6 +15,8 @@ From TS Require Import Model.MultiFile Spec.C10MultiSpec.
 From TS Require Model.Writer Proofs.C10Multi Proofs.C10MultiWitness.
 From TS Require Import Spec.C10GoGrammar.
 From TS Require Proofs.C10_GOGrammarTok Proofs.C10_GOGrammarSemi Proofs.C10_GOGrammarParse Proofs.C10_GOGrammar Proofs.C10_GOGrammarFile.
+From TS Require Import Spec.C10SwGrammar.
+From TS Require Proofs.C10_SWGrammarTok Proofs.C10_SWGrammarParse Proofs.C10_SWGrammarDecl Proofs.C10_SWGrammar Proofs.C10_SWGrammarFile.
 
 (* ---------------------------------------------------------------- the lexers *)
 (* the lexer never looks below the bracket stack it started with: a text that is balanced on its own
@@ -754,3 +756,122 @@ Theorem C10_grammar_kotlin_multi_witness :
   c10_kt_recognise (lit "package com.p.lib" ++ nl ++ lit "import com.p.lib-crate.Item" ++ nl) = None.
 Proof. exact Proofs.C10_KTGrammarMulti.C10_kt_grammar_multi_nonvacuous. Qed.
 Print Assumptions C10_grammar_kotlin_multi_witness.
+
+(* ---------------------------------------------------------------- (3'') the GRAMMAR half, Swift *)
+
+(* "the recogniser" = c10_sw_recognise of Spec/C10SwGrammar.v: the tokenizer of the Swift lexical structure (nested multiline comments,
+   line comments, identifiers and back-ticked identifiers, numbers, static string literals with the escapes of the language,
+   one-character punctuation; line breaks as tokens) and a recursive-descent parser of import / let / var / typealias / struct /
+   enum (raw-value and union style, indirect) / extension / init / func declarations with generic-parameter clauses, protocol
+   compositions, type-inheritance clauses, parameter clauses and the type grammar; the BODIES of init / func are only recognised
+   as balanced token runs.  checks/c10.py runs it on every real Swift file (driver command c10_sw_parse); Some n = a file with n
+   top-level declarations.
+
+   The tokenizer is compositional at token boundaries: if the text b does not start with an identifier / number character, a star
+   or a slash, or the text a ends with a character that is none of these (glue a b), and a opens no line comment or b starts a
+   new line (lcok a b), the tokens of a ++ b are those of a followed by those of b - with exactly the fuel the recogniser gives it. *)
+Theorem C10_sw_tokens_frame :
+  forall (a : str) (ta : list c10_wtok) (b : str) (tb : list c10_wtok),
+    c10_sw_tokens (S (List.length a)) a = Some ta -> c10_sw_tokens (S (List.length b)) b = Some tb ->
+    Proofs.C10_SWGrammarTok.glue a b = true -> Proofs.C10_SWGrammarTok.lcok a b = true ->
+    c10_sw_tokens (S (List.length (a ++ b))) (a ++ b) = Some (ta ++ tb).
+Proof. exact Proofs.C10_SWGrammarTok.sw_tokens_frame. Qed.
+Print Assumptions C10_sw_tokens_frame.
+
+(* The parser is complete for the declarative grammar WGr of Proofs/C10_SWGrammarParse.v (type-identifier with generic arguments and
+   dots, array / dictionary / tuple / optional types, argument lists - the type productions of the header comment of
+   Spec/C10SwGrammar.v as an inductive family over token lists): the tokens of a type followed by anything that does not start
+   with [<], [.] or [?] are consumed exactly, with the fuel the recogniser gives itself *)
+Theorem C10_sw_type_grammar_complete :
+  forall (t rest : list c10_wtok),
+    Proofs.C10_SWGrammarParse.WGr Proofs.C10_SWGrammarParse.STy t -> Proofs.C10_SWGrammarParse.fol rest ->
+    c10_sw_type (t ++ rest) = Some rest.
+Proof. exact Proofs.C10_SWGrammarParse.sw_type_ok. Qed.
+Print Assumptions C10_sw_type_grammar_complete.
+
+(* ... for the bodies of structs and enums: a sequence of members, each followed by a line break, up to the closing brace (Body P:
+   every member - a declaration or a case clause of the enum's style - is accepted from every place of P and ends in a place of P;
+   shown for stored properties, aliases, nested structs / enums, initializers and functions with balanced bodies, case clauses)
+   is consumed exactly ... *)
+Theorem C10_sw_body_grammar_complete :
+  forall (P : c10_sw_ctx -> Prop) (b : list c10_wtok), Proofs.C10_SWGrammarDecl.Body P b ->
+  forall ctx, P ctx -> forall rest f, (2 * List.length b + 2 <= f)%nat -> c10_sw_d f (WMembers ctx) (b ++ rest) = Some rest.
+Proof. exact Proofs.C10_SWGrammarDecl.body_ok. Qed.
+Print Assumptions C10_sw_body_grammar_complete.
+
+(* ... and for whole files: any sequence of declarations each of which the declaration parser consumes up to its line break
+   (FileToks; DeclOk is shown for import, let, typealias, struct, enum, indirect enum, init, func) is accepted, as exactly that
+   many declarations *)
+Theorem C10_sw_file_grammar_complete :
+  forall (n : nat) (ts : list c10_wtok), Proofs.C10_SWGrammarDecl.FileToks n ts ->
+  forall f, (List.length ts < f)%nat -> c10_sw_decls f ts = Some n.
+Proof. exact Proofs.C10_SWGrammarDecl.file_ok. Qed.
+Print Assumptions C10_sw_file_grammar_complete.
+
+(* Layout layer, whole files, PARTIAL (covered: version comment, import line, type aliases with parameters, String-backed enums
+   with generic constraints / conformance list / documented cases with and without raw value, the CodableVoid helper; MISSING: the
+   text of structs - stored properties, CodingKeys, init - and of algebraic enums - cases, CodingKeys, init(from:), encode(to:),
+   helper structs: their parser side is proved (C10_sw_body_grammar_complete and the lemmas decl_struct_ok, decl_init_ok,
+   decl_func_ok, clause_ok, block_ok of Proofs/C10_SWGrammarDecl.v), their text is only validated by the check and by the witness
+   below - and the step from the IR (sw_decl_of) to these declarations): under any version made of [A-Za-z0-9_.+-], the header
+   followed by the text of ANY list of such declarations that are well-formed for the grammar - declared names identifiers of the
+   language, back-ticked or not reserved; doc lines without a line break; raw values key-shaped; conformances and constraints
+   type-identifiers of the grammar (IdText); type trees whose names are type names and whose verbatim leaves are types of the
+   grammar (TyText) - is accepted, as one declaration (the import) more than the list is long. *)
+Theorem C10_swift_layout_grammar_partial :
+  forall (nv : bool) (version : str) (ds : list sw_decl),
+    c10_dotted_ok version = true -> Forall Proofs.C10_SWGrammar.c10_swg_decl_ok ds ->
+    c10_sw_recognise (Proofs.C10_SWGrammarFile.sw_header nv version ++ List.concat (map sw_render_decl ds)) = Some (S (List.length ds)).
+Proof. exact Proofs.C10_SWGrammarFile.sw_decls_recognised. Qed.
+Print Assumptions C10_swift_layout_grammar_partial.
+
+(* The hypotheses are satisfiable and acceptance means something: a program with a documented generic struct (string, optional,
+   array, unit, mapped, dictionary-of-generic-application members, a keyword-named property, a dashed key with CodingKeys, Swift
+   decorators and generic constraints), a generic alias, a String-backed enum (one case named default), an indirect generic
+   algebraic enum with unit / tuple / optional-tuple / struct variants is in dom_C10, in no finding class, and its file - version
+   comment, import, every declaration with CodingKeys / init / init(from:) / encode(to:), the helper struct, CodableVoid - is
+   accepted as 7 declarations; the same text without its last three characters, without its first opening brace, with its first
+   `=` turned into `:`, or without its first back-tick is rejected; two stored properties on two lines are accepted, on one line
+   rejected; `struct : Codable` (no name), `struct A<>` (empty parameter list), `let a` (no type), an enum with a raw value and a
+   payload are rejected; `init(class:)` is accepted, `init(let:)` rejected; the last conjuncts: the hypotheses of
+   C10_swift_layout_grammar_partial hold of a list with an alias, a generic String-backed enum named `default` and CodableVoid. *)
+Theorem C10_grammar_swift_witness :
+  Proofs.C10_SWFile.c10_sw_cfg_ok Proofs.C10_SWGrammarFile.w_cfg = true /\ dom_C10 CSW Proofs.C10_SWGrammarFile.w_prog = true /\
+  known_C10 CSW [] Proofs.C10_SWGrammarFile.w_prog = [] /\
+  sw_generate uc_exec Proofs.C10_SWGrammarFile.w_cfg Proofs.C10_SWGrammarFile.w_prog = Ok Proofs.C10_SWGrammarFile.w_text /\
+  c10_sw_recognise Proofs.C10_SWGrammarFile.w_text = Some 7%nat /\
+  contains_sub (lit "public struct OPPerson<T: Codable & Equatable & Hashable & Sendable, U: Codable & Sendable>: Codable, Sendable, Equatable {") Proofs.C10_SWGrammarFile.w_text = true /\
+  contains_sub (lit "public let `class`: Unicode.Scalar") Proofs.C10_SWGrammarFile.w_text = true /\
+  contains_sub (lit "public let index: [String: OPBox<U, [Bool]>]") Proofs.C10_SWGrammarFile.w_text = true /\
+  contains_sub (lit "public typealias OPAl<T> = [T]?") Proofs.C10_SWGrammarFile.w_text = true /\
+  contains_sub (lit "case `default` = ""Default""") Proofs.C10_SWGrammarFile.w_text = true /\
+  contains_sub (lit "public indirect enum OPE<T: Codable & Sendable>: Codable, Sendable {") Proofs.C10_SWGrammarFile.w_text = true /\
+  contains_sub (lit "public init(from decoder: Decoder) throws {") Proofs.C10_SWGrammarFile.w_text = true /\
+  contains_sub (lit "public struct CodableVoid: Codable, Sendable, Equatable {}") Proofs.C10_SWGrammarFile.w_text = true /\
+  c10_sw_recognise (firstn (List.length Proofs.C10_SWGrammarFile.w_text - 3) Proofs.C10_SWGrammarFile.w_text) = None /\
+  c10_sw_recognise (Proofs.C10_TSGrammarFile.g_drop_first 123 Proofs.C10_SWGrammarFile.w_text) = None /\
+  c10_sw_recognise (Proofs.C10_TSGrammarFile.g_subst_first 61 58 Proofs.C10_SWGrammarFile.w_text) = None /\
+  c10_sw_recognise (Proofs.C10_TSGrammarFile.g_drop_first 96 Proofs.C10_SWGrammarFile.w_text) = None /\
+  c10_sw_recognise Proofs.C10_SWGrammarFile.w_two_members_two_lines = Some 1%nat /\
+  c10_sw_recognise Proofs.C10_SWGrammarFile.w_two_members_one_line = None /\
+  c10_sw_recognise Proofs.C10_SWGrammarFile.w_struct_without_name = None /\
+  c10_sw_recognise Proofs.C10_SWGrammarFile.w_empty_generics = None /\
+  c10_sw_recognise Proofs.C10_SWGrammarFile.w_member_without_type = None /\
+  c10_sw_recognise Proofs.C10_SWGrammarFile.w_raw_and_payload = None /\
+  c10_sw_recognise Proofs.C10_SWGrammarFile.w_label_class = Some 1%nat /\
+  c10_sw_recognise Proofs.C10_SWGrammarFile.w_label_let = None /\
+  c10_dotted_ok (sw_version Proofs.C10_SWGrammarFile.w_cfg) = true /\
+  Forall Proofs.C10_SWGrammar.c10_swg_decl_ok
+    [Proofs.C10_SWGrammarFile.w_alias_decl; Proofs.C10_SWGrammarFile.w_unit_decl; SWCodableVoid [lit "Codable"; lit "Equatable"]].
+Proof. exact Proofs.C10_SWGrammarFile.C10_swift_grammar_nonvacuous. Qed.
+Print Assumptions C10_grammar_swift_witness.
+
+(* the finding class C10-swift-label is a defect of the GRAMMAR, and the recogniser sees it: a struct with a property named `let`
+   is in dom_C10 and in the class, its file is lexically balanced, contains `public init(let: String)` and is rejected *)
+Theorem C10_swift_label_rejected :
+  exists text, dom_C10 CSW Proofs.C10_SWGrammarFile.w_label_prog = true /\
+    known_C10 CSW [] Proofs.C10_SWGrammarFile.w_label_prog = ["C10-swift-label"%string] /\
+    sw_generate uc_exec Proofs.C10_SWGrammarFile.w_cfg Proofs.C10_SWGrammarFile.w_label_prog = Ok text /\
+    contains_sub (lit "public init(let: String)") text = true /\ good_C10_lex CSW text = true /\ c10_sw_recognise text = None.
+Proof. exact Proofs.C10_SWGrammarFile.swift_label_rejected. Qed.
+Print Assumptions C10_swift_label_rejected.
